@@ -303,10 +303,41 @@ fn arb_value_with(number: BoxedStrategy<String>, dups: bool, token_rate: u32) ->
 	});
 	let s = prop_oneof![8 => tree, 1 => wide.clone(), 1 => proptest::collection::vec(wide, 1..4).prop_map(RefValue::Arr), 1 => large];
 	if dups {
-		s.boxed()
+		// duplicated keys whose successive values are equal up to the order of nested entries (or identical):
+		// an entry of some object is repeated later in that object with a shuffled copy of its value
+		(s, proptest::collection::vec(any::<u8>(), 0..48), any::<u16>())
+			.prop_map(|(v, ch, sel)| if sel % 4 == 0 { repeat_shuffled(v, &mut gen::Chooser::new(&ch)) } else { v })
+			.boxed()
 	} else {
 		s.prop_map(gen::dedup_keys).boxed()
 	}
+}
+
+/// In the first object (pre-order) that has an entry whose value contains an object with >= 2 entries, repeats that
+/// entry at a later position with its value shuffled at every level.
+fn repeat_shuffled(v: RefValue, ch: &mut gen::Chooser) -> RefValue {
+	fn has_wide_object(v: &RefValue) -> bool {
+		v.any(&|x| matches!(x, RefValue::Obj(o) if o.len() >= 2))
+	}
+	fn go(v: RefValue, ch: &mut gen::Chooser, done: &mut bool) -> RefValue {
+		match v {
+			RefValue::Arr(a) => RefValue::Arr(a.into_iter().map(|x| go(x, ch, done)).collect()),
+			RefValue::Obj(mut o) => {
+				if !*done {
+					if let Some(i) = o.iter().position(|(_, x)| has_wide_object(x)) {
+						*done = true;
+						let copy = (o[i].0.clone(), super::c15::shuffle(&o[i].1, ch));
+						let at = i + 1 + (ch.next() as usize * (o.len() - i)) / 256;
+						o.insert(at, copy);
+						return RefValue::Obj(o);
+					}
+				}
+				RefValue::Obj(o.into_iter().map(|(k, x)| (k, go(x, ch, done))).collect())
+			}
+			other => other,
+		}
+	}
+	go(v, ch, &mut false)
 }
 
 /// Moves the private token away from the first position (it is only special there).
